@@ -57,13 +57,11 @@ class Settings:
 
     @staticmethod
     def merge(old: Settings, new: Settings) -> Settings:
-        if not old.disable_all and new.disable_all:
+        if (not old.disable_all and new.disable_all) or (not old.enable_all and new.enable_all):
+            # An "all" switch given on the command line resets the lists of the config
+            # file: only what the command line itself enables and disables applies.
             enable = new.enable
-            disable = set()
-
-        elif not old.enable_all and new.enable_all:
             disable = new.disable
-            enable = set()
 
         else:
             disable = old.disable | new.disable
